@@ -58,7 +58,10 @@ def content(rng):
         # ignored by its kind like a constant; column F holds F1-F4 logicals, F5 number, F6 blank, F7 text, F8 float
         ref = f'F{rng.randrange(1, 9)}'
         return rng.choice(['=ROUND({r},0)', '=ROUNDUP({r},1)', '=ROUNDDOWN({r},0)', '={r}+0', '={r}*1', '=IF({r}>0,{r},0)', '=-{r}', '={r}', '={r}={r}', '={r}&""',
-                           '=ROUND({r},0)', '=SUM({r},1)', '=MAX({r},-1)', '=IFERROR({r}/1,0)', '=ROUND(2.5,0)', '=1=1', '=LEFT("12",1)']).format(r=ref)
+                           '=ROUND({r},0)', '=SUM({r},1)', '=MAX({r},-1)', '=IFERROR({r}/1,0)', '=ROUND(2.5,0)', '=1=1', '=LEFT("12",1)',
+                           # a cell whose VALUE IS A LIST (a column / a row of another area): the library folds its items wherever the
+                           # cell stands in the area - the split laws check that against itself (the reference has no opinion)
+                           '=INDEX(F5:F8,0,1)', '=INDEX(F1:F8,0,1)', '=F5:F8', '=INDEX(F5:F5,1,0)']).format(r=ref)
     return None
 
 
@@ -196,6 +199,19 @@ def make_book(rng):
         p2 = put(f'={fn}({sp[1]})', nargs=1)
         both = put(f'={fn}({sp[0]},{sp[1]})', nargs=2) if fn != 'COUNTBLANK' else None
         laws.append((fn, whole, p1, p2, both, text, sp))
+    # rows holding a cell whose value is a list: the row as one area against the same row cut right in front of that cell
+    L0 = wbspec.get_column_letter
+    for a_, v_ in list(cells[0].items()):
+        if isinstance(v_, str) and (v_.startswith('=INDEX(F') or v_ == '=F5:F8'):
+            rr_, cc_ = wbspec.rc(a_)
+            if 2 <= cc_ <= 5 and rr_ <= 8:
+                text, sp = f'A{rr_}:E{rr_}', (f'A{rr_}:{L0(cc_ - 1)}{rr_}', f'{L0(cc_)}{rr_}:E{rr_}')
+                for fn in ('SUM', 'COUNT'):
+                    whole = put(f'={fn}({text})', nargs=1)
+                    p1 = put(f'={fn}({sp[0]})', nargs=1)
+                    p2 = put(f'={fn}({sp[1]})', nargs=1)
+                    both = put(f'={fn}({sp[0]},{sp[1]})', nargs=2)
+                    laws.append((fn, whole, p1, p2, both, text, sp))
     # sheet W: data in columns X..AC only - areas whose corners lie on both sides of the Z -> AA step of the column letters
     wide = {}
     for r in range(1, 5):
@@ -303,13 +319,20 @@ def run_book(ctx, bi):
             return False
         return (nnum >= 1 and nign >= 1) or nargs >= 2
 
-    judge_book(ctx, ID, spec, [(0, a) for a, f, m in forms], vals, exact=False, name=f'agg{bi}', monitor='fold-reference',
-               on_result=on_result, classify=None, nontrivial=nontrivial)
+    # every third book is translated cell by cell through the entry-point API (each aggregate with the slice of its own precedents):
+    # cells reached only through an area have to be in that slice with their own kind (0, FALSE and "" are not blank)
+    per_cell = bi % 3 == 2
+    if per_cell:
+        r.count('books_translated_by_entry_cells')
+    book = judge_book(ctx, ID, spec, [(0, a) for a, f, m in forms], vals[:2] if per_cell else vals, exact=False, name=f'agg{bi}', monitor='fold-reference',
+                      on_result=on_result, classify=None, nontrivial=nontrivial, per_cell=per_cell)
     # split laws, per valuation, library against itself
     for (fn, whole, p1, p2, both, text, sp) in laws:
         for val in vals:
             key = repr([(s, a, v) for (s, a, v) in val])
-            o = {k: results.get((k, key)) for k in (whole, p1, p2, both) if k}
+            # where the reference had no opinion (a cell whose value is a list inside the area) the library was not asked yet: the law
+            # compares the library with itself, so it is asked now
+            o = {k: results.get((k, key)) or book.value(0, k, val) for k in (whole, p1, p2, both) if k}
             if any(v is None for v in o.values()):
                 continue
             r.count('split_laws_checked')
@@ -321,9 +344,10 @@ def run_book(ctx, bi):
             w, a_, b_ = o[whole], o[p1], o[p2]
             if fn in ('SUM', 'COUNT', 'COUNTBLANK'):
                 if not (num(w) and num(a_) and num(b_)):
-                    if not (w.ok or a_.ok or b_.ok):
-                        continue
-                    report(r, ID, None, case, {'whole': w.brief(), 'parts': [a_.brief(), b_.brief()]}, 'numbers on all three', monitor='split-law')
+                    # a cell that fails (an error of the data: ROUND of a text cell) fails the area it lies in AND the part it lies in: the
+                    # whole is a number exactly when both parts are
+                    if num(w) != (num(a_) and num(b_)):
+                        report(r, ID, None, case, {'whole': w.brief(), 'parts': [a_.brief(), b_.brief()]}, 'the whole is a number exactly when both parts are', monitor='split-law')
                     continue
                 if not math.isclose(w.value, a_.value + b_.value, rel_tol=1e-12, abs_tol=1e-9):
                     report(r, ID, None, case, {'whole': w.value, 'parts': [a_.value, b_.value]}, f'{fn}(X) = {fn}(X1)+{fn}(X2)', monitor='split-law')
